@@ -49,7 +49,7 @@ type c04Cfg struct {
 	outside                [][2]int // token, path
 }
 type c04Ev struct {
-	op  byte // S D U X R B T E
+	op  byte // S D U X R B T E, and virtual time: A (arg seconds pass, nothing is swept) W (CheckExpirations now at side arg)
 	arg int
 }
 
@@ -614,6 +614,21 @@ func (w *c04World) apply(e c04Ev) *c04Obs {
 		}
 		s.bw.CheckExpirations(time.Now().Add(2 * c04Expiration))
 		return quiet()
+	case 'A':
+		// virtual time: instead of waiting, the deadlines of everything both endpoints hold move into the past
+		d := time.Duration(e.arg) * time.Second
+		if d > 0 {
+			w.a.bw.VerifShiftDeadlines(d)
+			w.b.bw.VerifShiftDeadlines(d)
+		}
+		return quiet()
+	case 'W':
+		s := w.a
+		if e.arg == 1 {
+			s = w.b
+		}
+		s.bw.CheckExpirations(time.Now())
+		return quiet()
 	}
 	return quiet()
 }
@@ -631,21 +646,25 @@ func (w *c04World) release() {
 func (e c04Ev) coq() string {
 	switch e.op {
 	case 'S':
-		return fmt.Sprintf("Start %d", e.arg)
+		return fmt.Sprintf("Ev (Start %d)", e.arg)
 	case 'D':
-		return fmt.Sprintf("Deliver %d", e.arg)
+		return fmt.Sprintf("Ev (Deliver %d)", e.arg)
 	case 'U':
-		return fmt.Sprintf("Dup %d", e.arg)
+		return fmt.Sprintf("Ev (Dup %d)", e.arg)
 	case 'X':
-		return fmt.Sprintf("Drop %d", e.arg)
+		return fmt.Sprintf("Ev (Drop %d)", e.arg)
 	case 'R':
-		return fmt.Sprintf("Replay %d", e.arg)
+		return fmt.Sprintf("Ev (Replay %d)", e.arg)
 	case 'B':
-		return fmt.Sprintf("Bump %d", e.arg)
+		return fmt.Sprintf("Ev (Bump %d)", e.arg)
 	case 'T':
-		return fmt.Sprintf("Timeout %d", e.arg)
+		return fmt.Sprintf("Ev (Timeout %d)", e.arg)
+	case 'A':
+		return fmt.Sprintf("Age %d", e.arg)
+	case 'W':
+		return fmt.Sprintf("Sweep %s", coqBool(e.arg == 1))
 	}
-	return fmt.Sprintf("Expire %s", coqBool(e.arg == 1))
+	return fmt.Sprintf("Ev (Expire %s)", coqBool(e.arg == 1))
 }
 
 func (c *c04Cfg) coq() string {
@@ -1265,6 +1284,7 @@ func runC04(a runArgs) error {
 		c04Emit(e, cfg, r, "random", fmt.Sprintf("tokens-%d", nx), fmt.Sprintf("fault-pct-%d", fp))
 	}
 	c04RestartFamily(e, thorough)
+	c04ExpiryFamily(e, thorough)
 	return e.Flush(a.out)
 }
 
@@ -1370,6 +1390,120 @@ func c04RestartFamily(e *Emitter, thorough bool) {
 							r := c04Run(cfg, drain(evs2, lifo))
 							c04Emit(e, cfg, r, "restart", name, "resource-changed")
 						}
+					}
+				}
+			}
+		}
+	}
+}
+
+// c04AgeSteps: amounts of virtual time (seconds; the expiration of both endpoints is 3600 s). No sum of
+// them is a multiple of 3600, so no deadline is ever met exactly (real time moves by milliseconds meanwhile).
+var c04AgeSteps = []int{1700, 3700}
+
+// c04ExpiryFamily: an exchange dies after at least one block (everything in flight is lost, the Do gives
+// up), time passes (short of / beyond the deadline of what the endpoints still hold), the endpoints are
+// swept or not, the resource gets new content of at least the same length, and a new exchange with the
+// SAME token runs to completion. The stale reassembly / sending state of the dead exchange is still in
+// the caches unless swept; the new exchange must deliver exactly its own body.
+func c04ExpiryFamily(e *Emitter, thorough bool) {
+	type base struct {
+		name                 string
+		code, reqLen, resLen int
+		etag                 bool
+		szxA, szxB           int
+	}
+	bases := []base{
+		{"download", 1, 0, 75, false, 0, 0},
+		{"download-etag", 1, 0, 40, true, 0, 0},
+		{"upload", 3, 75, 5, false, 0, 0},
+		{"post-big-response", 2, 5, 40, false, 0, 0},
+	}
+	if thorough {
+		bases = append(bases, base{"download-szx", 1, 0, 100, false, 1, 0}, base{"upload-szx", 2, 100, 5, false, 0, 1},
+			base{"both", 3, 40, 40, false, 0, 0}, base{"both-etag", 3, 40, 40, true, 0, 0})
+	}
+	sweeps := [][]c04Ev{nil, {{'W', 0}}, {{'W', 1}}, {{'W', 0}, {'W', 1}}}
+	ages := [][]c04Ev{{{'A', 3700}}, {{'A', 1700}}, {{'A', 1700}, {'A', 1700}, {'A', 1700}}}
+	if thorough {
+		sweeps = append(sweeps, []c04Ev{{'E', 0}}, []c04Ev{{'E', 1}})
+		ages = append(ages, []c04Ev{{'A', 1700}, {'A', 1700}}, nil)
+	}
+	for _, b := range bases {
+		cfg := &c04Cfg{szxA: b.szxA, maxA: 1152, szxB: b.szxB, maxB: 1152}
+		cfg.exch = []c04Exch{{0, b.code, 7, 0, 5, b.reqLen, -1}}
+		cfg.res = []c04Res{{11, b.resLen, b.etag, 42}}
+		ff := c04Run(cfg, c04Scripted(cfg, nil))
+		nd := 0
+		for _, ev := range ff.evs {
+			if ev.op == 'D' {
+				nd++
+			}
+		}
+		for p := 1; p < nd; p++ {
+			for ai, age := range ages {
+				for si, sw := range sweeps {
+					for _, bump := range []bool{true, false} {
+						if !bump && (!thorough || b.code != 1) {
+							continue
+						}
+						total := 0
+						for _, a := range age {
+							total += a.arg
+						}
+						if bump && !b.etag && total <= 3600 {
+							// Short of the deadline the reassembly state of the dead exchange is still valid and a
+							// new exchange with the same token continues it, like a late block within one exchange:
+							// without ETag the versions of a resource that changes meanwhile cannot be told apart
+							// (RFC 7959; observation O4 in notes/C04.md). The content changes only with an ETag here.
+							continue
+						}
+						// the first exchange: p messages arrive, the rest is lost, the Do gives up
+						pre := []c04Ev{{'S', 0}}
+						for i := 0; i < p; i++ {
+							pre = append(pre, c04Ev{'D', 0})
+						}
+						mid := append([]c04Ev{{'T', 0}}, age...)
+						mid = append(mid, sw...)
+						if bump {
+							mid = append(mid, c04Ev{'B', 0})
+						}
+						mid = append(mid, c04Ev{'S', 0})
+						stage, i, n, epi := 0, 0, 0, 0
+						epilogue := []c04Ev{{'T', 0}, {'E', 0}, {'E', 1}}
+						pol := func(w *c04World, _ int) (c04Ev, bool) {
+							if stage == 0 {
+								if i < len(pre) {
+									i++
+									return pre[i-1], true
+								}
+								stage, i = 1, 0
+							}
+							if stage == 1 {
+								if len(w.flight) > 0 {
+									return c04Ev{'X', 0}, true
+								}
+								stage = 2
+							}
+							if stage == 2 {
+								if i < len(mid) {
+									i++
+									return mid[i-1], true
+								}
+								stage = 3
+							}
+							if len(w.flight) > 0 && n < 60 {
+								n++
+								return c04Ev{'D', 0}, true
+							}
+							if epi < len(epilogue) {
+								epi++
+								return epilogue[epi-1], true
+							}
+							return c04Ev{}, false
+						}
+						r := c04Run(cfg, pol)
+						c04Emit(e, cfg, r, "expiry", "expiry-"+b.name, fmt.Sprintf("age-%d", ai), fmt.Sprintf("sweep-%d", si))
 					}
 				}
 			}
